@@ -34,20 +34,24 @@ RULE = ("E2: seeded sequences of define (new / full recycle / partial recycle / 
 TRUSTED_BASE = [
     "Coq 8.16.1 kernel; vm_compute in Examples, refutation witnesses and the correspondence evaluation",
     "Print Assumptions: Closed under the global context for every C12 theorem",
-    "translator/gen_limits.py (mini SQL expression parser, statement-shape regexes, AST facts about job_loop, "
-    "after_recycle, hold/release, call sites of start_task/launch_command)",
-    "harness/p_c12.py (drivers, Gallina printers, ghost bookkeeping of oracle A) and harness/e3.py (oracle B)",
+    "translator/gen_limits.py (mini SQL expression parser, statement-shape regexes, expression translator of the "
+    "job_loop slot tests, AST facts about job_loop, run_promoted_hash_jobs, after_recycle, hold/release, call sites "
+    "of start_task/launch_command)",
+    "harness/p_c12.py (drivers, Gallina printers, ghost bookkeeping of oracle A), harness/c12_loop.py (recording "
+    "wrappers around the real Builder/Scheduler/Executor, project generators) and harness/e3.py (oracle B)",
     "_safe/_safe_ignoring_hold are modelled by definition; cached column = definition is C10 (checked here in the "
     "direction C12 needs: a real dispatch is always a member of the model's eligible set)",
 ]
 ASSUMPTIONS = [
     "a command's resource holding starts at dispatch to RUNNING and ends when mark_completed is written "
     "(conservative: the real process lives strictly inside that window)",
-    "asyncio runs callbacks to completion (job_loop is the only starter of tasks; structure facts in GenLimits.v)",
+    "asyncio runs callbacks to completion (job_loop is the only starter of tasks; structure facts in GenLimits.v; "
+    "the event order of the real loop is replayed by the loop model on every run)",
     "commands are only launched from Executor.execute_job inside a task started by Builder.start_task",
     "the full resource/hold theorems (no hypothesis on the history) hold iff the generated shape flags say the "
     "recycle code is repaired (C12_resources_full_iff_repaired, C12_hold_full_iff_repaired); for the unrepaired "
-    "shape: hypothesis of the _partial theorems = a step whose job is in flight is not declared again (quiet); "
+    "shape: hypothesis of the _calm theorems = a step whose job is in flight is declared again only as a full recycle "
+    "with unchanged resources outside hold blocks, or while only its hash check runs (calm; quiet implies calm); "
     "without it the full statements are refuted (see C12_*_refuted and findings.d/C12-*)",
 ]
 
@@ -548,6 +552,7 @@ def _b3_runs(ctx):
         return runs
     runs = []
     ctx._c12_b3 = runs
+    LP.WAITING_ATTRS = list((getattr(ctx, "facts", None) or {}).get("facts", {}).get("waiting_counters", []))
     directed = [("amend-slot:njob=1", LP.scenario_amend_slot(1, 1), 1),
                 ("amend-slot:njob=2", LP.scenario_amend_slot(2, 2, with_static=True), 2),
                 ("amend-slot:small-file", LP.scenario_amend_slot(1, 1, big=False), 1),
@@ -600,6 +605,14 @@ def _loop_correspondence(ctx):
                             witness={"njob": njob, "loop_events": evs})
     runs = _b3_runs(ctx)
     checks = []
+    for r in runs:
+        if r["rec"].counter_mismatch is not None:
+            pos, attr, val, own = r["rec"].counter_mismatch
+            ctx.add_failure("correspondence", "loop:waiting-counter", "job-loop:waiting-counter-differs",
+                            f"Builder.{attr} = {val} at event {pos} of a real build, but {own} calls of "
+                            "run_promoted_hash_jobs are in progress (the translator reads it as that number)",
+                            witness=_b3_witness(r))
+            break
     for r in runs:
         items = LP.loop_items(r["rec"].events)
         r["items"] = items
